@@ -125,7 +125,11 @@ func (ts TypeSpecifier) parent() TypeSpecifier {
 		if IsValidFHIRPathElement(ts.typeName) {
 			return TypeSpecifier{FHIR, "Element"}
 		}
-		return TypeSpecifier{FHIR, "DomainResource"}
+		if protofields.IsValidResourceType(ts.typeName) {
+			return TypeSpecifier{FHIR, "DomainResource"}
+		}
+		// neither a datatype nor a resource: a nested backbone component (e.g. Patient.contact)
+		return TypeSpecifier{FHIR, "BackboneElement"}
 	}
 }
 
